@@ -141,9 +141,13 @@ func (t *Table) ReadFrom(r io.Reader) (int64, error) {
 	}
 	total := int64(n)
 	blocksCount := uint32(math.Ceil(float64(t.RowsCount) / float64(255)))
-	t.Blocks = make([][]byte, blocksCount)
-	t.BlockIndices = make([][]byte, blocksCount)
-	for i := range t.Blocks {
+	c := blocksCount
+	if c > maxPrealloc {
+		c = maxPrealloc
+	}
+	t.Blocks = make([][]byte, 0, c)
+	t.BlockIndices = make([][]byte, 0, c)
+	for i := uint32(0); i < blocksCount; i++ {
 		n, b, err := t.readBlock(r)
 		if err != nil {
 			if errors.Is(err, io.EOF) {
@@ -152,9 +156,9 @@ func (t *Table) ReadFrom(r io.Reader) (int64, error) {
 			return 0, err
 		}
 		total += int64(n)
-		t.Blocks[i] = b
+		t.Blocks = append(t.Blocks, b)
 	}
-	for i := range t.BlockIndices {
+	for i := uint32(0); i < blocksCount; i++ {
 		n, b, err := t.readBlock(r)
 		if err != nil {
 			if errors.Is(err, io.EOF) {
@@ -163,7 +167,7 @@ func (t *Table) ReadFrom(r io.Reader) (int64, error) {
 			return 0, err
 		}
 		total += int64(n)
-		t.BlockIndices[i] = b
+		t.BlockIndices = append(t.BlockIndices, b)
 	}
 	return total, nil
 }
